@@ -120,6 +120,7 @@ structure DSt where
   fUnlink : Nat := 0
   fEnd : Nat := 0
   leftovers : Nat := 0
+  leftoversAfter : Nat := 0
   seen : Std.HashSet UInt64 := {}
   nontrivial : Nat := 0
   mismatches : Nat := 0
@@ -427,10 +428,9 @@ def handle (d : DSt) (n : Nat) (line : String) : IO DSt := do
       match parseNat? b, parseNat? a with
       | some b, some a =>
         let mut d := { d with steps := d.steps + 1, leftovers := d.leftovers + b }
-        -- the dumps glob and remove stale temp files first (configobject.cpp:467, icingaapplication.cpp:172)
-        if kind != "write" && a != 0 then
-          IO.println s!"MISMATCH line={n} case={d.caseNo} op=L what=stale_temp_files_after_dump:{a}"
-          d := { d with mismatches := d.mismatches + 1 }
+        -- stale temp files before/after the next complete dump: reported only (the property says the loader ignores them;
+        -- that today's dumps glob and remove them, configobject.cpp:467, is not part of it)
+        d := { d with leftoversAfter := d.leftoversAfter + (if kind != "write" then a else 0) }
         return d
       | _, _ => IO.println s!"BADLINE line={n}"; return d
     | _ => IO.println s!"BADLINE line={n}"; return d
@@ -440,4 +440,4 @@ def main : IO Unit := do
   let stdin ← IO.getStdin
   let d ← foldLines stdin handle ({} : DSt)
   let d := closeCase d
-  IO.println s!"STATS cases={d.caseNo} steps={d.steps} m_cases={d.mCases} modifies={d.mOps} restores={d.rOps} op_errors={d.mErr} restores_checked={d.rChecked} s_cases={d.sCases} s_typekey={d.sTypeKey} s_modattrs={d.sMods} s_numtext={d.sNumText} writes={d.wCases} kills={d.kills} kill_old={d.killOld} kill_new={d.killNew} fault_mkstemp={d.fMkstemp} fault_chmod={d.fChmod} fault_write={d.fWrite} fault_write_partial={d.fWritePartial} fault_fsync={d.fFsync} fault_close={d.fClose} fault_rename={d.fRename} fault_unlink={d.fUnlink} fault_none={d.fEnd} stale_tmp_seen={d.leftovers} nontrivial={d.nontrivial} mismatches={d.mismatches} specfails={d.specfails}"
+  IO.println s!"STATS cases={d.caseNo} steps={d.steps} m_cases={d.mCases} modifies={d.mOps} restores={d.rOps} op_errors={d.mErr} restores_checked={d.rChecked} s_cases={d.sCases} s_typekey={d.sTypeKey} s_modattrs={d.sMods} s_numtext={d.sNumText} writes={d.wCases} kills={d.kills} kill_old={d.killOld} kill_new={d.killNew} fault_mkstemp={d.fMkstemp} fault_chmod={d.fChmod} fault_write={d.fWrite} fault_write_partial={d.fWritePartial} fault_fsync={d.fFsync} fault_close={d.fClose} fault_rename={d.fRename} fault_unlink={d.fUnlink} fault_none={d.fEnd} stale_tmp_seen={d.leftovers} stale_tmp_after_dump={d.leftoversAfter} nontrivial={d.nontrivial} mismatches={d.mismatches} specfails={d.specfails}"
